@@ -132,6 +132,49 @@ def err(e):
     return "%s: %s" % (type(e).__name__, e)
 
 
+def run_large_default(case):
+    """default state and chemostat map of systems with 4100-5300 cells (every nesting level in its own units): entry by entry
+    against density x volume / the per-environment flags of the description"""
+    use_repo()
+    import numpy as np
+    sd, idx = case["seed"], case["idx"]
+    r = gen.rng_for(sd, "C13large", idx)
+    desc = gen.large_system(r, reactions=False)
+    V = desc["h"] ** 3
+    for sp_ in desc["species"]:
+        sp_["density"] = gen.per_env(r, desc["envs"], lambda: r.uniform(1.0, 200.0) / V, p_scalar=0.2)
+        sp_["chstt"] = r.choice([False, True, {desc["envs"][0]: True}, {desc["envs"][1]: True, "default": False}])
+    desc["state"], desc["chemostats"] = None, None
+    bad, counts = [], {"large_default_systems": 1}
+    try:
+        if r.random() < 0.5:
+            system = gen.render_system(desc, gen.Rendering(r))
+        else:
+            import strengths as st
+            system = st.rdsystem_from_dict(gen.system_dict(desc, gen.Rendering(r)))
+    except Exception as e:
+        return {"bad": [{"what": "valid system rejected", "error": err(e), "case": case}], "counts": counts, "key": None}
+    want, wantc = gen.default_state(desc), gen.default_chemostats(desc)
+    qs = qscale(system.state.units)
+    got = [float(x) * qs for x in system.state.value]
+    gotc = [int(bool(x)) for x in system.chemostats]
+    if len(got) != len(want) or len(gotc) != len(wantc):
+        bad.append({"what": "large system: default state / chemostat map has the wrong length", "got": [len(got), len(gotc)], "expected": len(want), "case": case})
+    else:
+        for k, (g, w) in enumerate(zip(got, want)):
+            counts["large_default_entries"] = counts.get("large_default_entries", 0) + 1
+            if not close(g, w):
+                bad.append({"what": "large system: default state entry is not density x volume", "entry": k, "got_molecules": g, "expected_molecules": w,
+                            "cells": gen.ncells(desc["space"]), "case": case})
+                break
+        for k, (g, w) in enumerate(zip(gotc, wantc)):
+            if g != w:
+                bad.append({"what": "large system: default chemostat flag differs from the species' per-environment flag", "entry": k, "got": g, "expected": w, "case": case})
+                break
+    return {"bad": bad[:3], "counts": counts, "key": chash(["large-default", sd, idx]), "nontrivial": True,
+            "sample": {"seed": sd, "idx": idx, "cells": gen.ncells(desc["space"]), "species": len(desc["species"])}}
+
+
 def run_case(case):
     use_repo()
     import numpy as np
@@ -553,6 +596,8 @@ def main():
     from vf.sandbox import run_extra as _run_extra
     from vf.common import seed as _seed, tier as _tier
     _run_extra(run, "vf.history:h_space_edits", [{"seed": _seed(), "idx": _i} for _i in range(2400 if _tier() == "thorough" else 240)], cpu_budget=60, kind_prefix="history: ")
+    _run_extra(run, "vf.checks.c13:run_large_default", [{"seed": _seed(), "idx": _i} for _i in range(60 if _tier() == "thorough" else 6)], cpu_budget=300)
+    run.require("large_default_entries")
     # objects built with default arguments do not share them (vf/history.py: h_default_isolation)
     from vf.sandbox import run_extra as _rx
     from vf.common import seed as _sd0, tier as _tr0
